@@ -291,6 +291,29 @@ def watch_option_wired(ctx):
     f = ctx.f
     r = ctx.r
     n = 0
+    # every actor is launched with the option of the run: no launch path hands the launcher a literal `WatchOption::Disabled` / `Enabled` of its own (a
+    # dependency launched lazily must be watched like a requested target)
+    for fn_ in f.user_bodies():
+        if fn_.kind not in ("Fn", "AssocFn") or f.is_derived(fn_):
+            continue
+        widx = [i for i in range(1, fn_.argc + 1) if path_ends(fn_.locals[i]["ty"].replace("&", "").strip(), "WatchOption")]
+        if not widx:
+            continue
+        for (cn, cbb) in f.cg.call_sites.get(fn_.name, ()):
+            if cbb is None or cn not in f.bodies or f.is_derived(f.bodies[cn]) or f.bodies[cn].term(cbb)["k"] != "call":
+                continue
+            cv = f.bodies[cn]
+            ct = cv.term(cbb)
+            for i in widx:
+                if i - 1 >= len(ct["args"]):
+                    continue
+                a_ = ct["args"][i - 1]
+                lits = set(atom_aggs(cv.prov.operand_atoms(a_, interproc=False), "WatchOption"))
+                if a_["k"] == "const" and "WatchOption::" in str(a_.get("val", "")):
+                    lits.add(str(a_["val"]).split("::")[-1])
+                ctx.check(not lits, f"{short(cn)}/{short(fn_.name).split('::')[-1]}/with-the-run's-option", [site(cv, cbb)],
+                          f"`{short(fn_.name)}` is handed a literal WatchOption::{'/'.join(sorted(lits))} instead of the option of the run: targets reached this way are never "
+                          "(or always) watched - in watch mode a change to the inputs of a dependency that was not named on the command line is never rebuilt")
     for b in f.user_bodies():
         en = list(b.aggregates("WatchOption", "Enabled")) + [(blk["id"], st) for blk in b.normal_blocks() for st in blk["stmts"]
                                                                if st["rv"]["k"] == "use" and st["rv"]["op"]["k"] == "const" and str(st["rv"]["op"].get("val", "")).endswith("WatchOption::Enabled")]
